@@ -23,7 +23,7 @@ def site(r):
     return pages
 
 
-def gen(r, k, moment=None, cfg=None):
+def gen(r, k, moment=None, cfg=None, transport=None):
     m = moment or MOMENTS[k % len(MOMENTS)]
     c = cfg or {"workers": r.choice([1, 2, 4]), "maxConcurrentAssets": r.choice([1, 3]), "maxRetry": 0, "httpTimeout": 3,
                 "socksProxy": r.random() < 0.35, "warcAsync": r.random() < 0.4, "disableRateLimit": r.random() < 0.6,
@@ -40,8 +40,12 @@ def gen(r, k, moment=None, cfg=None):
         # more failing assets than asset slots, retries with back-off: the stop arrives while started captures are off the wire
         assets = ["/rt/a%d.bin" % i for i in range(6)]
         pages["/rt/"] = {"ctype": "text/html", "body": {"kind": "html", "assets": assets, "outlinks": []}}
+        if transport is None:
+            transport = r.random() < 0.5       # the attempts fail on the wire (no response at all) instead of with a 503
         for a in assets:
             pages[a] = {"status": 503, "ctype": "text/plain", "body": {"kind": "text", "size": 20, "seed": 1}}
+            if transport:
+                pages[a]["attempts"] = [{"reset": True}] * 4
         scn["seeds"] = ["/rt/"]
         c["maxRetry"], c["maxConcurrentAssets"], c["workers"] = 2, 2, 1
         scn["stop"] = {"when": "requests", "n": r.choice([3, 4, 5]), "extraMs": r.choice([100, 500, 1200]), "timeoutMs": 15000, "afterStopMs": 5000}
@@ -110,6 +114,7 @@ def run(ctx):
     for f in sorted(os.listdir(d)) if os.path.isdir(d) else []:
         scns.append(json.load(open(os.path.join(d, f)))["scenario"])
     scns += [gen(r, k) for k in range(n)]
+    scns += [gen(r, n + 1, moment="retrying", transport=True)]
     results = e2e.run_many(scns, timeout=120, workers=10)
     for scn, (rep, err) in zip(scns, results):
         judge(ctx, scn, rep, err)
